@@ -108,6 +108,13 @@ def emitAll : WState → List Emit → WState × List Rec
 def workerRecords (ems : List Emit) : List Rec :=
   (emitAll { out := [], err := [] } (ems ++ [.flushOut, .flushErr])).2
 
+/-- a worker whose process dies hard (SIGKILL, `os._exit`) after `run()` got through `pre`: no `finally`, no
+flush — what it has put on the log queue is exactly what `pre` caused (every logger record, and whatever
+captured output an explicit flush had already handed over); for the parent it then counts as done
+(`is_alive()` is false → `TaskDiedError`) -/
+def diedRecords (pre : List Emit) : List Rec :=
+  (emitAll { out := [], err := [] } pre).2
+
 /-! ## the parent -/
 
 inductive Env where
